@@ -106,6 +106,9 @@ def entity(draw, e: int, kind: str, shift: Optional[List[float]] = None):
         return {"kind": kind, "p1": p1, "p2": [p1[i] + d[i] for i in range(3)]}
     if kind == "cluster":
         lat = draw(lt.lattice(min_cells=1, max_cells=4, widths_decades=0.5))
+        # geometry of the cluster only: what else the shared lattice strategy draws (merges, zones, settings, its own
+        # offset / scale) belongs to other properties' scripts; here these things are statements of the program
+        lat = {key: lat[key] for key in ("dims", "widths", "jitter", "cells", "orient")}
         lat["offset"] = c
         return {"kind": kind, "lat": lat}
     if kind in ("extrude", "revolve", "wedge"):
@@ -130,6 +133,9 @@ def entity(draw, e: int, kind: str, shift: Optional[List[float]] = None):
         if kind == "ring":
             out["inner"] = radius * draw(_f(0.2, 0.8))
             out["nseg"] = draw(st.sampled_from([4, 5, 6, 8]))
+        if draw(st.integers(0, 2)) == 0:
+            # designed at one size, brought to another afterwards: shape.scale(ratio, origin) or transform([Scaling])
+            out["scaled"] = {"ratio": draw(st.sampled_from([0.001, 0.0254, 0.5, 2.0, 3.0])), "via": draw(st.sampled_from(["scale", "transform"]))}
         return out
     if kind == "stack":
         nx, ny, rep = draw(st.sampled_from([(1, 1, 2), (2, 1, 1), (1, 2, 2), (2, 2, 1), (2, 2, 2), (3, 1, 1), (3, 2, 1), (1, 3, 2)]))
@@ -452,6 +458,11 @@ def _make_entity(cb, e: int, ent, run: Run):
             shape = cb.Hemisphere(ap1, rp, d)
             if ent.get("copy"):
                 shape = shape.copy()
+        if ent.get("scaled"):
+            if ent["scaled"]["via"] == "scale":
+                shape.scale(ent["scaled"]["ratio"], ap1)
+            else:
+                shape.transform([cb.Scaling(ent["scaled"]["ratio"], ap1)])
         ch = ent["chops"]
         if ch["mode"] == "api":
             shape.chop_axial(count=ch["a"])
@@ -601,12 +612,22 @@ class Model:
         self.kinds_used: List[str] = []
 
 
+def final_size(ent) -> Dict[str, Any]:
+    """radius / length / inner radius of a round shape as declared, i.e. after its scaling about the first axis point"""
+    r = (ent.get("scaled") or {}).get("ratio", 1.0)
+    out = dict(ent, radius=ent["radius"] * r, length=ent["length"] * r)
+    if "inner" in ent:
+        out["inner"] = ent["inner"] * r
+    return out
+
+
 def _surface_sides(ent, pts: np.ndarray, which: str) -> List[str]:
     """sides of one operation (8 corner positions) that lie on a named surface of a round shape; geometric predicate,
     tolerance 1e-6 relative to the shape's size (corners are constructed on these surfaces to rounding accuracy)"""
     ap1 = np.asarray(ent["ap1"]) + np.asarray(ent.get("translate", [0.0, 0.0, 0.0]))
     d = np.asarray(ent["dir"])
-    tol = 1e-6 * max(ent["radius"], ent["length"])
+    ent = final_size(ent)
+    tol = 1e-6 * max(ent["radius"], ent["length"]) + 8 * float(np.spacing(np.max(np.abs(pts))))
     rel = pts - ap1
     axial = rel @ d
     if ent["kind"] == "hemisphere":
